@@ -10,7 +10,7 @@ import torch
 import c03_gen as G
 from common import VERIF, Infra, err_class, parse_sx, sx, time_limit
 
-TL = 10.0
+TL = 60.0  # generous: a slow box must end in exit 0 or 2, never in a VIOLATION
 
 
 def ask_chunked(drv, reqs, budget=24000):
@@ -80,6 +80,14 @@ def spec_cases(run):
             if run.tier == "quick" and L == 2 and len(dims) == 2 and 0 in dims:
                 continue
             for tup in itertools.product(al, repeat=L):
+                if sum(1 for t in tup if t == G.ELL) > 1:
+                    continue
+                cases.append((dims, ("tuple", list(tup))))
+    if run.tier == "thorough":
+        # tuples of length rank + 2 on two rank-2 shapes (every placement of two Nones / an Ellipsis around two consumed dims, overruns)
+        for dims in ([2, 3], [3, 2]):
+            al = G.alphabet(dims)
+            for tup in itertools.product(al, repeat=4):
                 if sum(1 for t in tup if t == G.ELL) > 1:
                     continue
                 cases.append((dims, ("tuple", list(tup))))
@@ -245,11 +253,11 @@ def names_answer(td):
     return ["names"] + ["none" if x is None else x for x in n]
 
 
-def impl_get(spec, idx):
+def impl_get(spec, idx, as_numpy=False):
     td = build_td(spec)
     try:
         with time_limit(TL):
-            r = td[G.index_py(idx)]
+            r = td[G.index_py(idx, as_numpy)]
     except TimeoutError:
         raise
     except Exception as e:
@@ -300,9 +308,12 @@ def classify_reject(spec, idx):
     return "rejects-accepted:" + "+".join(sorted({G.kind_of(it) for it in items}))
 
 
-def oracle_read(run, spec, idx, impl, td, r, site="getitem"):
-    """the property on the real code: torch on a proxy of the batch shape, torch on each leaf"""
+def oracle_read(run, spec, idx, impl, td, r, site="getitem", as_numpy=False):
+    """the property on the real code: torch on a proxy of the batch shape, torch on each leaf
+    (the torch reference always uses the tensor rendering of the index)"""
     case = {"mode": "read", "td": spec, "idx": idx, "idx_str": G.index_json(idx)}
+    if as_numpy:
+        case["numpy"] = True
     bs = spec["bs"]
     py = G.index_py(idx)
     try:
@@ -365,6 +376,14 @@ def getitem_cases(run):
                 if sum(1 for t in tup if t == G.ELL) > 1:
                     continue
                 cases.append((spec, ("tuple", list(tup))))
+    if run.tier == "thorough":
+        bs = [2, 3]
+        spec = {"bs": bs, "names": ["a", "b"], "feats": [[], [2]], "nested": [([2], [[]])]}
+        al = G.alphabet(bs)
+        for tup in itertools.product(al, repeat=4):
+            if sum(1 for t in tup if t == G.ELL) > 1:
+                continue
+            cases.append((spec, ("tuple", list(tup))))
     return cases
 
 
@@ -435,7 +454,7 @@ def replay(run, drv, path, site="replay"):
         spec["nested"] = [tuple(n) for n in spec.get("nested", [])]
         if c.get("mode") == "write":
             c03_write.oracle_write(run, spec, idx, c["value"], site=site)
-        else:
-            impl, td, r = impl_get(spec, idx)
-            oracle_read(run, spec, idx, impl, td, r, site=site)
+        elif c.get("mode") in (None, "read"):
+            impl, td, r = impl_get(spec, idx, as_numpy=bool(c.get("numpy")))
+            oracle_read(run, spec, idx, impl, td, r, site=site, as_numpy=bool(c.get("numpy")))
         run.case(("replay", json.dumps(c, sort_keys=True, default=str)))
